@@ -29,6 +29,7 @@ def small_families(tier):
     out.append(("mutrec", gen2.family_mutrec(tier), q))
     out.append(("multirec", gen2.family_multirec(tier), q))
     out.append(("nullary", gen2.family_nullary(tier), q))
+    out.append(("ineq", gen2.family_ineq(tier), q))
     out.append(("strat", gen2.family_strat(tier), q))
     c, d = gen2.family_arith(tier, part="safe")
     out.append(("arith", c, d))
